@@ -181,6 +181,7 @@ fn server_bases(tier: Tier) -> Vec<SCfg> {
                                 deadline_ms: 10_000,
                                 finish: *f,
                                 hk: HKind::Run,
+                                cancel: false,
                             })
                             .collect();
                         out.push(SCfg {
@@ -193,6 +194,8 @@ fn server_bases(tier: Tier) -> Vec<SCfg> {
                             fault: None,
                             eof_at_end: true,
                             route,
+                            burst: false,
+                            dup_deadline_ms: 10_000,
                         });
                     }
                 }
